@@ -60,7 +60,7 @@ PERSIST = ("h5", "ovf", "vtk", "xarray")
 ACTION_OF = {"translate": "Translate", "scale": "Scale", "mkfield": "MkField", "neg": "Neg", "pos": "Pos", "abs": "Abs", "add": "Add",
              "mul": "Mul", "sub": "Sub", "dot": "Dot", "cross": "Cross", "norm": "Norm", "orientation": "Orientation", "integrate": "Integrate",
              "fromfield": "FromField", "setsub": "SetSub", "q_meshclose": "QMeshClose", "q_fieldclose": "QFieldClose",
-             "q_regionin": "QRegionIn", "q_aligned": "QAligned", "mulnum": "MulNum", "comp": "Comp", "lshift": "LShift", "diff": "Diff", "mutatevalid": "MutateValid",
+             "q_regionin": "QRegionIn", "q_aligned": "QAligned", "q_eq": "QEq", "q_mean": "QMean", "q_call": "QCall", "mean": "Mean", "setvdims": "SetVdims", "mulnum": "MulNum", "comp": "Comp", "lshift": "LShift", "diff": "Diff", "mutatevalid": "MutateValid",
              "updateconst": "UpdateConst", "setarray": "SetArray", "writearray": "WriteArray", "selplane": "SelPlane", "selrange": "SelRange", "getsub": "GetSub",
              "getregion": "GetRegion", "pad": "Pad", "resample": "Resample", "h5": "H5", "ovf": "Ovf", "vtk": "Vtk", "xarray": "Xarray"}
 ALL_ACTIONS = sorted(set(ACTION_OF.values()) | {"MeshRotate90", "FieldRotate90", "SetValidArray", "SetValidNorm", "SetValidNone"})
@@ -107,9 +107,11 @@ def clause_of(aspect, c, is_result):
         return "DF_QueryPure"
     if op == "setsub":
         return "DF_SetSub"
-    if op == "integrate" and is_result:
+    if op in ("integrate", "mean") and is_result:
         return "DF_Integrate"
-    if not is_result and op not in ("setvalid", "mutatevalid", "updateconst", "setarray", "fromfield", "writearray"):
+    if op == "setvdims":
+        return "DF_Relabel"
+    if not is_result and op not in ("setvalid", "mutatevalid", "updateconst", "setarray", "fromfield", "writearray", "setvdims"):
         return "DF_OperandsUnchanged"
     if op in SEL:
         if aspect in ("geometry", "unitsdims", "counts"):
@@ -168,8 +170,12 @@ def check_step(part, w, c, st, hist, emb, name):
     part.count()
     if outcome != c["outcome"]:
         clause = "DF_Query" if c["op"].startswith("q_") else "DF_Accepts" if c["outcome"] == "ok" else "DF_Rejects"
+        if clause == "DF_Query" and ex is None and c["outcome"] != "reject":
+            part.violation(f"{clause}/{opname(c)}/answer", "the library's answer differs from the model's",
+                           _wit(hist, emb, name, answered=outcome, model=c["outcome"]))
+            return False
         part.violation(f"{clause}/{opname(c)}/{w.last_cond if ex is not None else 'accepted'}",
-                       "the library %s a call the model %s" % (("rejected", "accepts") if c["outcome"] == "ok" else ("accepted", "requires to be rejected")),
+                       "the library %s a call the model %s" % (("rejected", "accepts") if c["outcome"] != "reject" else ("accepted", "requires to be rejected")),
                        _wit(hist, emb, name, exc=repr(ex)[:300]))
         return False
     if c["op"] in GEO and c["ip"] and outcome == "ok" and not retself:
@@ -192,7 +198,7 @@ def replay_behaviour(df, states, emb, part, scratch):
 
 
 # ------------------------------------------------------------------------------------------------
-_REC_END = re.compile(r'outcome \|-> "(?:ok|reject|true|false)" \]')
+_REC_END = re.compile(r'outcome \|-> "(?:ok|reject|true|false|[mv]:[^"]*)" \]')
 
 
 def _hist_ends(block):
@@ -459,8 +465,8 @@ for _op in SEL:
     FAMILY[_op] = "sel"
 FAMILY.update({"diff": "diff", "setvalid": "valid", "mutatevalid": "valid", "updateconst": "update", "setarray": "update",
                "mkfield": "update", "fromfield": "update", "writearray": "update", "integrate": "integrate", "setsub": "setsub", "q_aligned": "q_aligned", "q_meshclose": "query", "q_fieldclose": "query",
-               "q_regionin": "query", "h5": "h5", "ovf": "ovf", "vtk": "vtk", "xarray": "xarray"})
-FAMILY_OWNER = {"geo": {"C13"}, "algebra": {"C03"}, "sel": {"C07"}, "diff": {"C08"}, "valid": {"C08"}, "update": {"C02"}, "integrate": {"C06"}, "setsub": {"C14"}, "q_aligned": {"C14"}, "query": {"DF"},   # allclose / `in` are beyond the twenty texts
+               "q_regionin": "query", "q_eq": "query", "q_mean": "integrate", "mean": "integrate", "q_call": "update", "setvdims": "labels", "h5": "h5", "ovf": "ovf", "vtk": "vtk", "xarray": "xarray"})
+FAMILY_OWNER = {"geo": {"C13"}, "algebra": {"C03"}, "sel": {"C07"}, "diff": {"C08"}, "valid": {"C08"}, "update": {"C02"}, "integrate": {"C06"}, "setsub": {"C14"}, "q_aligned": {"C14"}, "query": {"DF"}, "labels": {"DF"},   # allclose / `in` are beyond the twenty texts
                 "h5": {"C10"}, "ovf": {"C09"}, "vtk": {"C16"}, "xarray": {"C17"}}
 CLAUSE_OWNER = {
     "DF_RegionNormal": {"C13"}, "DF_MeshNormal": {"C13"}, "DF_FieldShapes": {"C13"}, "DF_RootsLive": {"C13"},
